@@ -491,6 +491,11 @@ class BaseEvent(BaseModel, Generic[T_EventResultType]):
             except Exception:
                 # Ignore exceptions here - we'll handle them based on raise_if_any below
                 pass
+            except asyncio.CancelledError:
+                # a handler that was cancelled records a CancelledError as its error: that is one more recorded
+                # error to be handled below, not a cancellation of the caller
+                if not isinstance(event_result.error, asyncio.CancelledError):
+                    raise
 
         event_results: dict[PythonIdStr, EventResult[T_EventResultType]] = {
             handler_key: event_result for handler_key, event_result in self.event_results.items()
